@@ -420,16 +420,21 @@ def run_c30(ctx):
                 "<= 1 character over 8 classes in query and form, JSON objects, raw bodies, paths, headers, every method, every "
                 "response shape) replayed on a real Patron and Valet in several concretisations per symbolic case; "
                 "distinct = (symbolic request, response) paths replayed")
+    # the model check and the dump of the cover graph are independent TLC runs: side by side
+    from concurrent.futures import ThreadPoolExecutor
+    dot = env.subdir("c30") + "/cover.dot"
+    pool = ThreadPoolExecutor(max_workers=2)
+    fut_cover = pool.submit(tlc.run, "HttpRound", cfg_text("cover", CLASSES8, props=False), spec_dir=SPEC_DIR, dump_dot=dot,
+                            tag="c30g", coverage=False, workers=max(2, env.NCPU // 4))
     res = tlc.run("HttpRound", cfg_text("mc", ctx.pick(CLASSES4, CLASSES8), bodyitems=ctx.pick(1, 2)), spec_dir=SPEC_DIR, tag="c30mc",
-                  timeout=5400)
+                  timeout=5400, workers=max(2, env.NCPU - env.NCPU // 4))
     ctx.add_model(res, "HttpRound/mc", {"QC": ctx.pick(CLASSES4, CLASSES8), "MaxLen": 2, "MaxItems": 2, "BodyItems": ctx.pick(1, 2)})
     if not res.ok:
         ctx.diverge(Divergence("C30", "model", res.error_name or res.error, "HttpRound", "specification property violated in the model",
                                steps=[{"action": a, "state": s} for a, s in res.trace]))
         return
     tlc.require_coverage(res, ACTIONS, "HttpRound/mc")
-    dot = env.subdir("c30") + "/cover.dot"
-    res = tlc.run("HttpRound", cfg_text("cover", CLASSES8, props=False), spec_dir=SPEC_DIR, dump_dot=dot, tag="c30g", coverage=False)
+    res = fut_cover.result()
     ctx.add_model(res, "HttpRound/cover-graph", {"QC": CLASSES8})
     g = graph.load_dot(dot)
     paths = graph.edge_cover(g, max_len=6)
